@@ -27,6 +27,16 @@ def _block_of_member(e, member):
     return None
 
 
+_BODIES = {}
+
+
+def _body_of(f):
+    from .origin import Body
+    if id(f) not in _BODIES:
+        _BODIES[id(f)] = Body(f)
+    return _BODIES[id(f)]
+
+
 def analyse_push_sibling(F, f):
     """Roles of one push_to_*_block sibling: guard block(s), grown position/block, size args, pushed block, slices."""
     roles = {"guard": set(), "grow": [], "sizes": {}, "push": set(), "slice": set(), "where": f["span"]}
@@ -44,6 +54,15 @@ def analyse_push_sibling(F, f):
                 args = call_args(n)[1:] if n.get("k") == "MethodCall" else call_args(n)
                 for i, a in enumerate(args):
                     pa = peel(a)
+                    # an argument bound to a local first (`let grown = self.x_block.next_size();`)
+                    hops = 0
+                    while pa.get("k") == "Path" and pa.get("res") == "local" and hops < 4:
+                        ds = [d_ for d_ in _body_of(f).defs.get(pa["lid"], []) if isinstance(d_, dict) and d_.get("k") not in ("Param", "ClosureParam", "Destructure", "Field")]
+                        if len(ds) != 1:
+                            break
+                        pa = peel(ds[0])
+                        a = ds[0]
+                        hops += 1
                     if pa.get("k") == "MethodCall" and pa.get("m") == "next_size":
                         roles["grow"].append((i, _self_block_field(pa["recv"])))
                     else:
@@ -805,17 +824,28 @@ def rule_W2(ctx):
     r = RuleResult("W2", "intern-key fidelity: the hash that alone keys SimpleGarnishData's constant table is computed from a loss-free encoding of the whole value")
     # 1. intern sites: functions that finish() a hasher and use the result as a map key
     sites = []
+    site_keyers = {}
     for f in F.fns.values():
         if f["crate"] != "garnish_lang_simple_data" or f["kind"] == "Closure":
             continue
         ms = [n for n in walk(f["hir"]) if n.get("k") == "MethodCall"]
-        if any(n["m"] == "finish" for n in ms) and any(n["m"] == "insert" for n in ms) and any(n["m"] == "get" for n in ms):
+        if not (any(n["m"] == "insert" for n in ms) and any(n["m"] == "get" for n in ms)):
+            continue
+        # the key is a finished hash - computed here, or by a helper of the crate that returns one (`Self::cache_key(&value)`)
+        keyers = []
+        for d, _c in hirq.calls_in(f["hir"]):
+            g = F.fns.get(d)
+            if g is not None and g["crate"] == f["crate"] and g["kind"] != "Closure" and g.get("hir") and g["mir"]["locals"][0]["ty"] == "u64" and any(
+                    n.get("k") == "MethodCall" and n.get("m") == "finish" for n in walk(g["hir"])):
+                keyers.append(g)
+        if any(n["m"] == "finish" for n in ms) or keyers:
             sites.append(f)
+            site_keyers[f["path"]] = keyers
     r.floor("hash-keyed intern sites in the data crate", len(sites), 1)
     hashed_types = set()
     for f in sites:
         tys = []
-        for recv, node in _hash_feeds(f["hir"]):
+        for recv, node in [x for h in [f] + site_keyers.get(f["path"], []) for x in _hash_feeds(h["hir"])]:
             t = (recv.get("ty") or "").lstrip("&")
             tys.append(t)
             hashed_types.add(t.split("<")[0])
